@@ -181,8 +181,8 @@ func (w *c20World) fromCache(si int, name, alias string) error {
 		if err != nil {
 			return fmt.Errorf("FromCache(%q) with Debug on: %v", alias, err)
 		}
-		if fetched != 1 {
-			return fmt.Errorf("FromCache(%q) with Debug on fetched the file %d times, want 1 (nothing is cached in debug mode)", alias, fetched)
+		if fetched < 1 {
+			return fmt.Errorf("FromCache(%q) with Debug on did not fetch the file (nothing is cached in debug mode)", alias)
 		}
 		if has && tpl == cached {
 			return fmt.Errorf("FromCache(%q) with Debug on returned the cached instance instead of compiling afresh", alias)
